@@ -15,6 +15,7 @@ import VotelibProofs.Lemmas.MonoMinimax
 import VotelibProofs.Lemmas.MonoBridge
 import VotelibProofs.Lemmas.MonoRules
 import VotelibProofs.Lemmas.MonoSchulze
+import VotelibProofs.Lemmas.MonoNewFull
 namespace VL.C17
 open VL HACfg Gen.Divisor VL.Convert VL.Mono
 
@@ -539,6 +540,94 @@ theorem schulze_monotone_bullet (p : RProfile) (w : Cand) (hp : ProfileOK p) (h 
   exact (schulze_monotone _ _ w f.wf f.wf' f.raised
     (fun c => ⟨f.cands c, candidates_bullet_superset p w (candidates_sub_arc p w h.1) c⟩) h).2.2
 
+/-! ### the wider reading of "adding a new ballot that ranks the winner first": `w` first, other candidates below it
+
+  For the additive rules this is `positional_monotone_new` etc. above.  For Bucklin, Copeland, minimax and Schulze the
+  bullet ballot is proved harmless (`…_monotone_bullet`); a new ballot `w > a > b …` is harmless under minimax with
+  margins or pairwise opposition (`minimax_monotone_new_full`), and it can cost `w` the seat under Bucklin, Copeland,
+  minimax with winning votes and Schulze — as a property of these voting rules themselves, shown by the
+  `…_new_full_witness` theorems on the models (the same inputs are open known findings on the implementation). -/
+
+open VL.Condorcet in
+/-- **Minimax with margins or pairwise opposition, matrix level**: a new ballot with `w` first (`Added`). -/
+theorem minimax_monotone_added (sc : Condorcet.Scorer) (hs : sc ≠ .winningVotes) (v v' : Pairwise) (w : Cand)
+    (hwf : Condorcet.WF v) (hwf' : Condorcet.WF v') (ha : Added v v' w) (hc : ∀ c, c ∈ candidates v' ↔ c ∈ candidates v)
+    (h : minimax sc v 1 = [Slot.cand w]) : minimax sc v' 1 = [Slot.cand w] := by
+  cases sc with
+  | winningVotes => exact absurd rfl hs
+  | margins => exact minimax_added (δ := 1) rfl v v' w hwf hwf' ha hc h
+  | pairwiseOpposition => exact minimax_added (δ := 0) rfl v v' w hwf hwf' ha hc h
+
+/-- **Minimax with margins or pairwise opposition, new ballot `w > …`**: any new ballot with `w` alone at the top and
+    any other candidates of the election below it (strict or shared ranks) keeps `w` the sole winner. -/
+theorem minimax_monotone_new_full (sc : Condorcet.Scorer) (hs : sc ≠ .winningVotes) (p : RProfile) (w : Cand) (rest : Ballot)
+    (hp : ProfileOK p) (hnb : (ballotCands (RankItem.one w :: rest)).Nodup)
+    (hsub : ∀ c ∈ ballotCands (RankItem.one w :: rest), c ∈ allRankedCandidates p)
+    (h : evalMinimax sc p = [Slot.cand w]) :
+    evalMinimax sc (addTo p (RankItem.one w :: rest) 1) = [Slot.cand w] :=
+  minimax_monotone_added sc hs _ _ w (wf_pairwiseOf p hp).1 (wf_added p _ hp hnb)
+    (added_new_full p w rest hp.nodup hnb hsub) (candidates_added_iff p _ hp hsub) h
+
+/-- Bucklin (`split_equal_rankings=False`): ballots (0,2), (3,1,2) elect 2 in the second round; the new ballot (2,0)
+    lets 0 reach the raised quota together with 2 -/
+theorem bucklin_new_full_witness :
+    ¬ ∀ (p : RProfile) (w : Cand) (rest : Ballot), (∀ bw ∈ p, 0 ≤ bw.2) → p ≠ [] → BallotOK (RankItem.one w :: rest) →
+      (∀ c ∈ ballotCands rest, c ∈ allRankedCandidates p) → evalBucklin p = .ok [Slot.cand w] →
+      evalBucklin (addTo p (RankItem.one w :: rest) 1) = .ok [Slot.cand w] := by
+  intro h
+  have := h [([.one 0, .one 2], 1), ([.one 3, .one 1, .one 2], 1)] 2 [.one 0]
+    (by decide +kernel) (by decide) (by decide +kernel) (by decide +kernel) (by decide +kernel)
+  revert this; decide +kernel
+
+/-- Bucklin as shipped (`PreferenceAddition()`): ballots (2,0,1), (3,1) elect 1; the new ballot (1,2) makes it a tie -/
+theorem bucklin_default_new_full_witness :
+    ¬ ∀ (p : RProfile) (w : Cand) (rest : Ballot), Strict p → (∀ bw ∈ p, 0 ≤ bw.2) → p ≠ [] →
+      BallotOK (RankItem.one w :: rest) → (∀ c ∈ ballotCands rest, c ∈ allRankedCandidates p) →
+      evalBucklinSplit p = .ok [Slot.cand w] →
+      evalBucklinSplit (addTo p (RankItem.one w :: rest) 1) = .ok [Slot.cand w] := by
+  intro h
+  have := h [([.one 2, .one 0, .one 1], 1), ([.one 3, .one 1], 1)] 1 [.one 2]
+    (by decide +kernel) (by decide +kernel) (by decide) (by decide +kernel) (by decide +kernel) (by decide +kernel)
+  revert this; decide +kernel
+
+/-- the Copeland witness: a 3-cycle 2 > 4 > 3 > 0 > 1 > 2 … with a bullet ballot for 1 -/
+def exCopelandNF : RProfile :=
+  [([.one 4, .one 3, .one 0, .one 1, .one 2], 1), ([.one 1, .one 2, .one 4, .one 3, .one 0], 1),
+   ([.one 2, .one 4, .one 3, .one 0, .one 1], 1), ([.one 1], 1)]
+
+/-- Copeland (first and second order): 2 is the strict Copeland maximum; the new ballot (2,4,1,3,0) turns pairwise
+    ties of 1 and 4 into wins -/
+theorem copeland_new_full_witness :
+    ¬ ∀ (p : RProfile) (w : Cand) (rest : Ballot) (secondOrder : Bool), ProfileOK p → BallotOK (RankItem.one w :: rest) →
+      (∀ c ∈ ballotCands rest, c ∈ allRankedCandidates p) → evalCopeland false p = [Slot.cand w] →
+      evalCopeland secondOrder (addTo p (RankItem.one w :: rest) 1) = [Slot.cand w] := by
+  intro h
+  have := h exCopelandNF 2 [.one 4, .one 1, .one 3, .one 0] true
+    ⟨by decide +kernel, by decide +kernel, by decide +kernel⟩ (by decide +kernel) (by decide +kernel) (by decide +kernel)
+  revert this; decide +kernel
+
+/-- minimax with winning votes: ballots 2×(1,2), 2×(0), (2,0): worst defeats 0:3, 1:3, 2:2; the new ballot (2,1) turns
+    both 1 ≻ 2 (2:1) and 0 ≻ 1 (3:2) into pairwise ties, which count 0 -/
+theorem minimax_wv_new_full_witness :
+    ¬ ∀ (p : RProfile) (w : Cand) (rest : Ballot), ProfileOK p → BallotOK (RankItem.one w :: rest) →
+      (∀ c ∈ ballotCands rest, c ∈ allRankedCandidates p) → evalMinimax .winningVotes p = [Slot.cand w] →
+      evalMinimax .winningVotes (addTo p (RankItem.one w :: rest) 1) = [Slot.cand w] := by
+  intro h
+  have := h [([.one 1, .one 2], 2), ([.one 0], 2), ([.one 2, .one 0], 1)] 2 [.one 1]
+    ⟨by decide +kernel, by decide +kernel, by decide +kernel⟩ (by decide +kernel) (by decide +kernel) (by decide +kernel)
+  revert this; decide +kernel
+
+/-- Schulze: ballots 2×(2), (1,2), 2×(0,3,1,2): 1 beats everybody on strongest paths; the new ballot (1,0,3)
+    strengthens 0's path so that 0 and 1 tie on path wins -/
+theorem schulze_new_full_witness :
+    ¬ ∀ (p : RProfile) (w : Cand) (rest : Ballot), ProfileOK p → BallotOK (RankItem.one w :: rest) →
+      (∀ c ∈ ballotCands rest, c ∈ allRankedCandidates p) → BeatsAll (pairwiseOf p) w →
+      evalSchulze (addTo p (RankItem.one w :: rest) 1) = [Slot.cand w] := by
+  intro h
+  have := h [([.one 2], 2), ([.one 1, .one 2], 1), ([.one 0, .one 3, .one 1, .one 2], 2)] 1 [.one 0, .one 3]
+    ⟨by decide +kernel, by decide +kernel, by decide +kernel⟩ (by decide +kernel) (by decide +kernel) (by decide +kernel)
+  revert this; decide +kernel
+
 /-! ## non-vacuity: concrete inputs that meet the hypotheses of the conditional theorems -/
 
 section examples
@@ -598,6 +687,9 @@ example : minimax .winningVotes (pairwiseOf exBase) 1 = [Slot.cand 0] ∧ copela
 example : minimax .winningVotes (pairwiseOf exPert) 1 = [Slot.cand 0] := by decide +kernel
 example : ProfileOK exBase := ⟨by decide +kernel, by decide +kernel, by decide +kernel⟩
 example : BeatsAll (pairwiseOf exBase) 0 ∧ evalSchulze exBase = [Slot.cand 0] := by decide +kernel
+-- a new full ballot 0 > 2 > 1 under minimax with margins
+example : evalMinimax .margins exBase = [Slot.cand 0] ∧ (ballotCands [RankItem.one 0, .one 2, .one 1]).Nodup ∧
+    evalMinimax .margins (addTo exBase [.one 0, .one 2, .one 1] 1) = [Slot.cand 0] := by decide +kernel
 example : evalMinimax .winningVotes exBase = [Slot.cand 0] ∧ evalCopeland false exBase = [Slot.cand 0] ∧
     liftOK 0 0 [.one 2, .one 3, .one 1, .one 0] = true := by decide +kernel
 example : (candidates (pairwiseOf exPert)).all (fun c => (candidates (pairwiseOf exBase)).contains c) = true := by
